@@ -1335,6 +1335,19 @@ class Controller:
             )
             return None
 
+        # Check that no connection to this device exists or is being created
+        connection = self.classic_connections.get(command.bd_addr)
+        pending_request = self.classic_pending_commands.get(command.bd_addr, {}).get(
+            lmp.Opcode.LMP_HOST_CONNECTION_REQ
+        )
+        if (connection and connection.handle != 0) or (
+            pending_request and not pending_request.done()
+        ):
+            self._send_hci_command_status(
+                hci.HCI_ErrorCode.CONNECTION_ALREADY_EXISTS_ERROR, command.op_code
+            )
+            return None
+
         self.classic_connections[command.bd_addr] = Connection(
             controller=self,
             handle=0,
